@@ -300,6 +300,12 @@ inline void finish_all() {
 
 } // namespace vs
 
+// every native object the library uses has to be initialised by the library first (plibsys has no static initialisers): an operation on
+// memory that never went through pthread_*_init works on whatever bytes the allocator returned
+template <class M> inline void vs_need_init(M &map, void *obj, const char *op) {
+  if (vs::S().active && vs::self && map.find(obj) == map.end())
+    vs::verdict("uninitialised-object", std::string(op) + " on a native object that was never initialised (no pthread_*_init call for this address: its content is whatever the allocator returned): " + vs::describe_all());
+}
 // ---- the redirected primitives ----------------------------------------------------------------------
 extern "C" {
 
@@ -318,6 +324,7 @@ int vs_pthread_mutex_destroy(pthread_mutex_t *m) {
 }
 int vs_pthread_mutex_lock(pthread_mutex_t *m) {
   vs::Sched &s = vs::S();
+  vs_need_init(s.mutexes, m, "pthread_mutex_lock");
   vs::Mutex &mx = s.mutexes[m];
   if (!s.active || !vs::self) { mx.owner = 0; return 0; }
   vs::point(false);
@@ -331,6 +338,7 @@ int vs_pthread_mutex_lock(pthread_mutex_t *m) {
 }
 int vs_pthread_mutex_trylock(pthread_mutex_t *m) {
   vs::Sched &s = vs::S();
+  vs_need_init(s.mutexes, m, "pthread_mutex_trylock");
   if (!s.active || !vs::self) { vs::Mutex &mx = s.mutexes[m]; if (mx.owner != -1) return EBUSY; mx.owner = 0; return 0; }
   vs::point(false);
   vs::Mutex &mx = s.mutexes[m];
@@ -353,6 +361,7 @@ int vs_pthread_mutex_timedlock(pthread_mutex_t *m, const struct timespec *) {
 }
 int vs_pthread_mutex_unlock(pthread_mutex_t *m) {
   vs::Sched &s = vs::S();
+  vs_need_init(s.mutexes, m, "pthread_mutex_unlock");
   vs::Mutex &mx = s.mutexes[m];
   if (!s.active || !vs::self) { mx.owner = -1; return 0; }
   if (mx.owner != vs::self->id) vs::verdict("model-misuse", "pthread_mutex_unlock of a mutex the caller does not hold: " + vs::describe_all());
@@ -377,6 +386,7 @@ int vs_pthread_cond_wait(pthread_cond_t *c, pthread_mutex_t *m) {
   if (mit == s.mutexes.end()) vs::verdict("cond-wait-bad-mutex", "pthread_cond_wait called with a pointer that is not an initialised mutex (wrong handle passed by p_cond_variable_wait?)");
   if (mit->second.owner != vs::self->id) vs::verdict("cond-wait-bad-mutex", "pthread_cond_wait called with a mutex the caller does not hold: " + vs::describe_all());
   // atomically: release the mutex and join the wait set
+  vs_need_init(s.conds, c, "pthread_cond_wait");
   mit->second.owner = -1;
   vs::Cond &cd = s.conds[c];
   cd.waiters.push_back(vs::self->id);
@@ -397,6 +407,7 @@ int vs_pthread_cond_wait(pthread_cond_t *c, pthread_mutex_t *m) {
 int vs_pthread_cond_signal(pthread_cond_t *c) {
   vs::Sched &s = vs::S();
   if (!s.active || !vs::self) return 0;
+  vs_need_init(s.conds, c, "pthread_cond_signal");
   vs::Cond &cd = s.conds[c];
   VSD("cond_signal %p waiters=%zu", (void *)c, cd.waiters.size());
   if (!cd.waiters.empty()) {
@@ -412,6 +423,7 @@ int vs_pthread_cond_signal(pthread_cond_t *c) {
 int vs_pthread_cond_broadcast(pthread_cond_t *c) {
   vs::Sched &s = vs::S();
   if (!s.active || !vs::self) return 0;
+  vs_need_init(s.conds, c, "pthread_cond_broadcast");
   vs::Cond &cd = s.conds[c];
   VSD("cond_broadcast %p waiters=%zu", (void *)c, cd.waiters.size());
   if (!cd.waiters.empty()) s.signals_with_waiters++;
@@ -425,6 +437,7 @@ int vs_pthread_rwlock_init(pthread_rwlock_t *l, const pthread_rwlockattr_t *) { 
 int vs_pthread_rwlock_destroy(pthread_rwlock_t *l) { vs::S().rwlocks.erase(l); return 0; }
 int vs_pthread_rwlock_rdlock(pthread_rwlock_t *l) {
   vs::Sched &s = vs::S();
+  vs_need_init(s.rwlocks, l, "pthread_rwlock_rdlock");
   if (!s.active || !vs::self) { s.rwlocks[l].readers.insert(0); return 0; }
   vs::point(false);
   while (s.rwlocks[l].writer != -1) { vs::self->wait = vs::W_RDLOCK; vs::self->wait_obj = l; vs::block_until_enabled(); }
@@ -434,6 +447,7 @@ int vs_pthread_rwlock_rdlock(pthread_rwlock_t *l) {
 }
 int vs_pthread_rwlock_tryrdlock(pthread_rwlock_t *l) {
   vs::Sched &s = vs::S();
+  vs_need_init(s.rwlocks, l, "pthread_rwlock_tryrdlock");
   if (!s.active || !vs::self) { s.rwlocks[l].readers.insert(0); return 0; }
   vs::point(false);
   if (s.rwlocks[l].writer != -1) return EBUSY;
@@ -442,6 +456,7 @@ int vs_pthread_rwlock_tryrdlock(pthread_rwlock_t *l) {
 }
 int vs_pthread_rwlock_wrlock(pthread_rwlock_t *l) {
   vs::Sched &s = vs::S();
+  vs_need_init(s.rwlocks, l, "pthread_rwlock_wrlock");
   if (!s.active || !vs::self) { s.rwlocks[l].writer = 0; return 0; }
   vs::point(false);
   while (s.rwlocks[l].writer != -1 || !s.rwlocks[l].readers.empty()) { vs::self->wait = vs::W_WRLOCK; vs::self->wait_obj = l; vs::block_until_enabled(); }
@@ -451,6 +466,7 @@ int vs_pthread_rwlock_wrlock(pthread_rwlock_t *l) {
 }
 int vs_pthread_rwlock_trywrlock(pthread_rwlock_t *l) {
   vs::Sched &s = vs::S();
+  vs_need_init(s.rwlocks, l, "pthread_rwlock_trywrlock");
   if (!s.active || !vs::self) { s.rwlocks[l].writer = 0; return 0; }
   vs::point(false);
   if (s.rwlocks[l].writer != -1 || !s.rwlocks[l].readers.empty()) return EBUSY;
@@ -459,6 +475,7 @@ int vs_pthread_rwlock_trywrlock(pthread_rwlock_t *l) {
 }
 int vs_pthread_rwlock_unlock(pthread_rwlock_t *l) {
   vs::Sched &s = vs::S();
+  vs_need_init(s.rwlocks, l, "pthread_rwlock_unlock");
   vs::RWLock &rw = s.rwlocks[l];
   if (!s.active || !vs::self) { rw.writer = -1; rw.readers.clear(); return 0; }
   if (rw.writer == vs::self->id) rw.writer = -1;
